@@ -8,15 +8,15 @@ CLAIMED = {
  "C01": ("exploration", "4 C01", "Seeded search over operation histories (deposits, withdrawals, swaps, collections, fee changes, donations, scripted deposit-withdraw) of >=3 users on the real pair + factory + router; solvency, LP-value monotonicity (exact 1024-bit cross multiplication), pro-rata bounds and the minimum-liquidity lock are evaluated after every step. Sampling, not proof."),
  "C02": ("exploration", "4 C02", "Every Simulation query and every executed swap in the POOL2 histories is compared with an exact wide-integer model (gross = floor(ask*offer/(pool+offer)), each fee = floor(share*gross)); totality is demanded whenever the results fit in 128 bits; scripted there-and-back swaps after random prefixes. States are reached through real histories (pending fees, donations, both offer kinds)."),
  "C03": ("exploration", "4 C03", "Stableswap pair histories (swap/provide/withdraw, amp 1..1e6, six decimal settings); every quote and swap is compared with an independent bisection solution of the curve invariant on decimal-normalised reserves over exact 1024-bit integers with a derived dust tolerance, output monotonicity in the offer is probed, and the exact invariant per LP is compared before/after every deposit and withdrawal."),
+ "C04": ("exploration", "4 C04", "Histories on the real 3-pool (all six swap directions, provide/withdraw/collect, valid/boundary/invalid amplification ramps on a block-height clock that lands inside, at and after ramps): solvency, exact D (bisection, n=3, Ann=3*amp) per LP before/after every step, swaps inside the slope box of the independent curve at the independently interpolated amplification, exact fee split, there-and-back swaps, accepted ramps within the documented bounds and stored as requested."),
  "C05": ("exploration", "4 C05", "Seeded search over histories of deposits, withdrawals, flash loans (direct and via router, generated borrower programs incl. nested loans, re-entrant deposit/withdraw/collect), collections, fee changes and donations by >=3 users and a borrower contract on the real vault + factory + router; share price (vault balance minus pending protocol fees, per share) compared before/after every step with exact 512-bit cross multiplication; pro-rata bounds, minimum-liquidity lock, deposit-then-withdraw."),
  "C06": ("fault_enumeration", "4 C06", "The borrower's callback behaviour is a generated program; ALL programs over the stated alphabet up to nesting depth 2 / length 2 (plus depth-1 length-3 and router payloads) are enumerated for a native and a cw20 vault, deeper ones are sampled with injected sub-call/bank faults; every loan transaction is checked for revert-or-fees-paid, burn destroyed, no mint during a loan, loan counter back to 0, exact-repay suffices / one unit less does not, router keeps nothing."),
- "C07": ("exploration", "4 C07", "A ledger model (charged - received by the collector) is compared with ProtocolFees / BurnedFees after every step of the pool histories, collections are scheduled at pending amounts of 0, <=1000, 1001 and large, burns are checked against total supply. Covers the pair (constant product and stableswap) and the vault; the 3-pool part is added by the POOL3 scenario."),
+ "C07": ("exploration", "4 C07", "A ledger model (charged - received by the collector) is compared with ProtocolFees / BurnedFees after every step of the pool histories, collections are scheduled at pending amounts of 0, <=1000, 1001 and large, burns are checked against total supply. Covers the pair (constant product and stableswap), the vault and the 3-pool."),
  "C14": ("exploration", "4 C14", "Every executed swap is preceded by the matching Simulation in the same state; attributes, balance deltas and ledger deltas must equal the quote field by field; router multi-hop quotes are compared with the receiver's realised balance increase."),
  "C15": ("exploration", "4 C15", "Boundary generator puts max_spread / belief_price / slippage_tolerance / minimum_receive one ulp around the realised values; acceptance and rejection are compared with exact rational bounds (one-sided, with the rounding band the fixed-point arithmetic is entitled to)."),
 }
 
 NOT_YET = {
- "C04": "check not built yet in this snapshot (POOL3 scenario); see DESIGN.md section 4",
  "C08": "check not built yet in this snapshot (BOND scenario)",
  "C09": "check not built yet in this snapshot (HUB scenario)",
  "C10": "check not built yet in this snapshot (HUB scenario)",
